@@ -1,6 +1,7 @@
 /-
 C09 — the cluster update is weight-preserving and reversible.
-Property theorems only (helper lemmas live in QmcProofs/Cluster.lean, QmcProofs/ClusterDraws.lean).
+Property theorems only (helper lemmas live in QmcProofs/Cluster.lean, ClusterDraws.lean, ClusterRelax.lean,
+ClusterScan.lean, ClusterComponents.lean, ClusterExact.lean).
 Model: QmcModel/Cluster.lean — `ClusterMove fr before after` (relation), `isClusterMove` (decider),
 `numClusters`, `configWeightProd`, `clusterFlips`; tied to /repo/src/sse/qmc_traits/cluster.rs,
 qmc_ising.rs (`single_cluster_step`, `timestep`) and qmc_runner.rs (`cluster_update`) by `./check C09`.
@@ -10,6 +11,8 @@ longitudinal-field bonds when h ≠ 0; `fun _ => false` for the Ising-symmetric 
 -/
 import QmcProofs.Cluster
 import QmcProofs.ClusterDraws
+import QmcProofs.ClusterComponents
+import QmcProofs.ClusterExact
 
 namespace Qmc.C09
 open Qmc
@@ -202,6 +205,115 @@ theorem clusterFlips_weight0 (prob : Rat) (w : Nat) (t : List Nat) (s : RS) (hs 
     decide_eq_false_iff_not]
   omega
 
+/-! ### the decomposition: components of the leg graph are exactly the atoms of the update
+
+`legGraph sk` (QmcModel/Cluster.lean): leg ids in time order; inner edges of non-edge ops, world-line
+links, links through the time boundary. `compLab sk` = `componentLabels (legGraph sk)`; `Conn edges`
+= reflexive-transitive closure of the (undirected) edges; `minConn edges i` = smallest leg id
+connected to `i`. `flipAt b a i` = "leg `i` differs between `b` and `a`".
+`NodupVars s`: no op lists a variable twice (part of `Op.WF`, true of every stored op). -/
+
+/-- `componentLabels` computes the connected components: the label of a leg is the smallest leg id
+connected to it (the fuel `nlegs + 1` of the relaxation always suffices) -/
+theorem compLab_is_component_min (s : Slots) (hn : NodupVars s) :
+    (compLab (skeleton s)).size = (legGraph (skeleton s)).nlegs ∧
+    ∀ i, i < (legGraph (skeleton s)).nlegs →
+      (compLab (skeleton s))[i]! = minConn (legGraph (skeleton s)).edges i := compLab_spec s hn
+
+/-- two legs carry the same label iff they are connected in the leg graph -/
+theorem compLab_eq_iff_connected (s : Slots) (hn : NodupVars s) {i j : Nat}
+    (hi : i < (legGraph (skeleton s)).nlegs) (hj : j < (legGraph (skeleton s)).nlegs) :
+    (compLab (skeleton s))[i]! = (compLab (skeleton s))[j]! ↔ Conn (legGraph (skeleton s)).edges i j :=
+  compLab_eq_iff s hn hi hj
+
+/-- (i) the flipped-leg set of every cluster move is closed under the adjacency of the leg graph -/
+theorem clusterMove_edge_closed (h : ClusterMove fr b a) (hn : NodupVars b.slots) :
+    ∀ e ∈ (legGraph (skeleton b.slots)).edges, flipAt b a e.1 = flipAt b a e.2 :=
+  Qmc.clusterMove_edge_closed h hn
+
+/-- (i) … hence a union of components: two legs with the same component label are flipped together
+or not at all. (With `unionOfClusters`, the per-case driver check of the relational mode, as a theorem.) -/
+theorem clusterMove_union_of_components (h : ClusterMove fr b a) (hn : NodupVars b.slots) {i j : Nat}
+    (hi : i < (legGraph (skeleton b.slots)).nlegs) (hj : j < (legGraph (skeleton b.slots)).nlegs)
+    (hij : (compLab (skeleton b.slots))[i]! = (compLab (skeleton b.slots))[j]!) :
+    flipAt b a i = flipAt b a j := Qmc.clusterMove_union_of_components h hn hi hj hij
+
+/-- (ii) flipping any leg set `D` that is closed under the adjacency of the leg graph and contains no
+leg of a non-edge op of flip weight 0 is a cluster move -/
+theorem flipConfig_clusterMove (fr : SkOp → Bool) (D : Nat → Bool) (c : Config) (hshape : ShapeOk c)
+    (hn : NodupVars c.slots)
+    (hclosed : ∀ e ∈ (legGraph (skeleton c.slots)).edges, D e.1 = D e.2)
+    (hfrozen : ∀ x ∈ opOffsets 0 c.slots, x.2.isEdge = false → fr x.2.sk = true →
+      0 < x.2.vars.length → D x.1 = false) :
+    ClusterMove fr c (flipConfig D c) := Qmc.flipConfig_clusterMove fr D c hshape hn hclosed hfrozen
+
+/-- (ii) flipping exactly one component that holds no op of flip weight 0 is a cluster move -/
+theorem flipComponent_clusterMove (fr : SkOp → Bool) (c : Config) (r : Nat) (hshape : ShapeOk c)
+    (hn : NodupVars c.slots) (hfree : ComponentFree fr c.slots r) :
+    ClusterMove fr c (flipComponent (skeleton c.slots) r c) :=
+  Qmc.flipComponent_clusterMove fr c r hshape hn hfree
+
+/-- (ii) components are exactly the atoms: every component free of weight-0 ops can be flipped alone,
+and a cluster move that flips a leg flips the leg's whole component, which is free of weight-0 ops -/
+theorem components_are_atoms (fr : SkOp → Bool) (c : Config) (hshape : ShapeOk c) (hn : NodupVars c.slots) :
+    (∀ r, ComponentFree fr c.slots r → ClusterMove fr c (flipComponent (skeleton c.slots) r c)) ∧
+    (∀ a, ClusterMove fr c a → ∀ i, i < (legGraph (skeleton c.slots)).nlegs → flipAt c a i = true →
+      (∀ j, j < (legGraph (skeleton c.slots)).nlegs →
+        (compLab (skeleton c.slots))[j]! = (compLab (skeleton c.slots))[i]! → flipAt c a j = true) ∧
+      ComponentFree fr c.slots (compLab (skeleton c.slots))[i]!) :=
+  Qmc.components_are_atoms fr c hshape hn
+
+/-- (iii) `numClusters`: 0 without legs, 1 without a constant single-site op ("the whole thing is one
+cluster", however many components there are), otherwise the number of connected components -/
+theorem numClusters_eq_components (s : Slots) (hn : NodupVars s) :
+    numClusters (skeleton s) =
+      if (legGraph (skeleton s)).nlegs = 0 then 0
+      else if (legGraph (skeleton s)).hasEdge = false then 1
+      else ((List.range (legGraph (skeleton s)).nlegs).filter
+              (fun i => minConn (legGraph (skeleton s)).edges i == i)).length := numClusters_spec s hn
+
+/-- (iii) what `nlegs` and `hasEdge` are: the number of legs of the string (0 iff the string is empty,
+when every op has a variable) and "some op is a constant single-site op" -/
+theorem legGraph_nlegs_hasEdge (s : Slots) (hn : NodupVars s) :
+    (legGraph (skeleton s)).nlegs = legCount s ∧
+    (legGraph (skeleton s)).hasEdge = (opsOf s).any (·.isEdge) ∧
+    ((∀ o ∈ opsOf s, o.vars ≠ []) → (legCount s = 0 ↔ opsOf s = [])) :=
+  ⟨legGraph_nlegs_eq s hn, legGraph_hasEdge_eq s hn, legCount_eq_zero_iff s⟩
+
+/-- (iv) flipping a component twice restores the configuration -/
+theorem flipComponent_involutive (sk : Skel) (r : Nat) (c : Config) (h : ShapedSlots c.slots) :
+    flipComponent sk r (flipComponent sk r c) = c := Qmc.flipComponent_involutive sk r c h
+
+/-- (iv) flips of two components commute -/
+theorem flipComponent_comm (sk : Skel) (r1 r2 : Nat) (c : Config) :
+    flipComponent sk r1 (flipComponent sk r2 c) = flipComponent sk r2 (flipComponent sk r1 c) :=
+  Qmc.flipComponent_comm sk r1 r2 c
+
+/-- (iv) a component flip keeps the skeleton (so the decomposition, `ComponentFreeSk`) -/
+theorem flipComponent_skeleton (sk : Skel) (r : Nat) (c : Config) :
+    skeleton (flipComponent sk r c).slots = skeleton c.slots := Qmc.flipComponent_skeleton sk r c
+
+/-- (iv) a component flip preserves the product of matrix elements (hypotheses of `clusterMove_weight`) -/
+theorem flipComponent_weight (H : Ham) (fr : SkOp → Bool) (c : Config) (r : Nat) (hshape : ShapeOk c)
+    (hn : NodupVars c.slots) (hfree : ComponentFree fr c.slots r)
+    (hsym : ∀ o ∈ opsOf c.slots, o.isEdge = false → fr o.sk = false → H.FlipSym o.bond)
+    (hconst : ∀ o ∈ opsOf c.slots, o.isEdge = true → H.ConstW o.bond) :
+    configWeightProd H (flipComponent (skeleton c.slots) r c).slots = configWeightProd H c.slots :=
+  clusterMove_weight H (Qmc.flipComponent_clusterMove fr c r hshape hn hfree) hsym hconst
+
+/-- a cluster move keeps structural validity (so the theorems above apply to its result again) -/
+theorem clusterMove_shapeOk (h : ClusterMove fr b a) (hb : ShapeOk b) (hn : NodupVars b.slots) :
+    ShapeOk a ∧ NodupVars a.slots := h.shapeOk hb hn
+
+/-! ### the exact model of the update lands in the relation -/
+
+/-- `clusterUpdate` (QmcModel/ClusterExact.lean: clusters numbered in the order of the Rust traversal,
+one `gen_bool` per cluster in that order, union of the accepted clusters flipped, tag rule) is a cluster
+move of its input, for every script and every weight-0 predicate -/
+theorem clusterUpdate_is_clusterMove (prob : Rat) (fr : SkOp → Bool) (c : Config) (rs : RS)
+    (hshape : ShapeOk c) (hn : NodupVars c.slots) :
+    ClusterMove fr c (clusterUpdate prob fr c rs).1 := clusterUpdate_clusterMove prob fr c rs hshape hn
+
 /-! ### non-vacuity: a concrete non-trivial move
 
 Two spins + an idle one; σx (constant, bond 1) on spin 0 at p = 0 and p = 2, a bond op (bond 0) on
@@ -231,5 +343,22 @@ example : ¬ ClusterMove (fun _ => false) exB { exA with state := exB.state } :=
   have := isClusterMove_complete h; revert this; decide
 set_option maxRecDepth 8000 in
 example : numClusters (skeleton exB.slots) = 2 := by decide
+
+/-- the hypotheses of the component theorems hold for the example -/
+example : ShapeOk exB ∧ NodupVars exB.slots := by
+  constructor
+  · intro o ho
+    simp only [exB, opsOf, List.mem_cons, List.not_mem_nil, or_false] at ho
+    rcases ho with rfl | rfl | rfl | rfl <;> simp [sx, bd, exB]
+  · intro o ho
+    simp only [exB, opsOf, List.mem_cons, List.not_mem_nil, or_false] at ho
+    rcases ho with rfl | rfl | rfl | rfl <;> simp [sx, bd]
+set_option maxRecDepth 8000 in
+/-- the move `exB → exA` is the flip of the component labelled 1 (legs 1–6, 8, 9), up to the tag rule -/
+example : (flipComponent (skeleton exB.slots) 1 exB).state = exA.state ∧
+    canonSlots (flipComponent (skeleton exB.slots) 1 exB).slots = exA.slots := by decide
+set_option maxRecDepth 8000 in
+/-- flipping the other component (legs 0 and 7: the σx pair through the boundary) changes `state[0]` -/
+example : (flipComponent (skeleton exB.slots) 0 exB).state = [true, false, true] := by decide
 
 end Qmc.C09
